@@ -407,6 +407,237 @@ func c05TrackHistory(h *c05Hist, idx int) {
 	r.Sample(map[string]any{"case": h.id, "steps": h.steps})
 }
 
+// ------------------------------------------------------------------ namespace restore under read faults / interleaving
+
+// c05NSSealedNow asks the server whether the namespace is sealed (used only to drive the workload).
+func c05NSSealedNow(v *vCore, n *c05NS) bool {
+	return v.Core.NamespaceSealed(n.NS)
+}
+
+// c05UnsealUntilOpen unseals n until it stays open (a failed lease restore re-seals the
+// namespace, also from a background goroutine that may run late).
+func (e *c05Env) unsealUntilOpen(v *vCore, n *c05NS) error {
+	var last error
+	for a := 0; a < 8; a++ {
+		if c05NSSealedNow(v, n) {
+			n.Sealed = true
+			if last = e.unsealNS(v, n); last != nil {
+				time.Sleep(50 * time.Millisecond)
+				continue
+			}
+		}
+		c05WaitRestored(v, 20*time.Second)
+		v.WaitQuiet(40*time.Millisecond, 3*time.Second)
+		if !c05NSSealedNow(v, n) {
+			n.Sealed = false
+			return nil
+		}
+	}
+	return fmt.Errorf("namespace %s does not stay unsealed: %v", n.Path, last)
+}
+
+func (e *c05Env) nsLeaseCount(v *vCore, n *c05NS) int {
+	c := 0
+	for _, k := range c05PhysKeys(v.Probe) {
+		if strings.HasPrefix(k, n.Prefix+c05LeaseMarker) {
+			c++
+		}
+	}
+	return c
+}
+
+func TestVerif_C05_NamespaceRestore(t *testing.T) {
+	t.Parallel()
+	seed := kit.Seed(5)
+	shard, _ := kit.Shard()
+	r := kit.NewResult(t, "c05-ns-restore", seed, "a namespace with its own seal holds long-lived secrets, tokens, logins and fresh 4s secrets. Fault variant: it is sealed, the k-th storage read under its sys/expire/id/ prefix is made to fail once (k enumerated over the lease records present, plus seeded k), it is unsealed (the lease restore fails and the namespace re-seals itself), the fault is cleared and it is unsealed again until it stays open; then the storage-vs-tracker oracle of c05-tracking runs and the 4s secrets are awaited (bounded progress). Interleaving variant without faults: leases of namespace X are renewed continuously while a second sealed namespace Y is unsealed (so X leases are loaded while the manager is in restore mode), then X is sealed and unsealed and the oracle runs. A fault case is non-trivial when the fault fired and the first unseal failed; an interleaving case when an X lease was seen loaded during Y's restore")
+	defer r.Write(t)
+	e := c05Boot(t, shard%2 == 1, true, 0)
+	v := e.v
+	x := e.ns("sns/")
+	y := e.addSealable("sns2")
+	v.Policy("c05", c05Policy, y.Path)
+	v.Mount("c05rec", "verifrec", y.Path, nil)
+	v.EnableAuth("c05auth", "verifrec", y.Path)
+	issue := func(n *c05NS, ttl string) string {
+		resp, err := v.Do(vReq{Op: logical.ReadOperation, Path: "c05rec/lease/n", Token: v.Root, NS: n.Path, Data: map[string]any{"ttl": ttl}})
+		if !vOK(resp, err) || resp == nil || resp.Secret == nil {
+			r.Inconc("leased read in %s failed: %s", n.Path, vErrStr(resp, err))
+			return ""
+		}
+		return resp.Secret.LeaseID
+	}
+	var xLong []string
+	for i := 0; i < 6; i++ {
+		xLong = append(xLong, issue(x, "1h"))
+	}
+	v.MustDo(vReq{Op: logical.UpdateOperation, Path: "auth/token/create", Token: v.Root, NS: x.Path, Data: map[string]any{"policies": []string{"default"}, "ttl": "1h"}})
+	v.MustDo(vReq{Op: logical.UpdateOperation, Path: "auth/c05auth/login/u", NS: x.Path, Data: map[string]any{"ttl": "1h", "policies": "default"}})
+	for i := 0; i < 24; i++ {
+		issue(y, "1h")
+	}
+
+	// ---- fault variant
+	nLeases := e.nsLeaseCount(v, x) + 2 // + the two short ones issued per case
+	var ks []int
+	for k := 1; k <= nLeases; k++ {
+		ks = append(ks, k)
+	}
+	rng := kit.NewRand(seed, uint64(90_000+shard))
+	for i := 0; i < kit.N(2, 12); i++ {
+		ks = append(ks, 1+rng.Intn(nLeases))
+	}
+	for ci, k := range ks {
+		caseID := fmt.Sprintf("nsfault:%d:%d:%d", shard, ci, k)
+		if !kit.WantCase(caseID) {
+			continue
+		}
+		r.Eval(1)
+		if err := e.unsealUntilOpen(v, x); err != nil {
+			r.Inconc("%s: %v", caseID, err)
+			break
+		}
+		issue(x, "4s")
+		issue(x, "4s")
+		steps := []string{fmt.Sprintf("namespace %s holds %d lease records", x.Path, e.nsLeaseCount(v, x))}
+		if err := e.sealNS(v, x); err != nil {
+			r.Inconc("%s: %v", caseID, err)
+			break
+		}
+		prefix := x.Prefix + c05LeaseMarker
+		v.Probe.FailNth(func(ev kit.Event) bool { return ev.Op == "get" && strings.HasPrefix(ev.Key, prefix) }, k)
+		uerr := e.unsealNS(v, x)
+		fired := v.Probe.ClearFaults()
+		steps = append(steps, fmt.Sprintf("sealed; read #%d under %s fails once; unseal -> %v (fault fired: %v)", k, c05KeyClass(prefix), uerr, fired > 0))
+		switch {
+		case fired > 0 && uerr != nil:
+			r.Count("unseal_failed_on_read_fault", 1)
+			r.Nontrivial(fmt.Sprintf("fault|%d|%d", k, nLeases))
+		case fired > 0:
+			r.Count("unseal_succeeded_despite_read_fault", 1)
+		default:
+			r.Count("fault_not_reached", 1)
+		}
+		v.WaitQuiet(40*time.Millisecond, 3*time.Second)
+		time.Sleep(50 * time.Millisecond) // lets a late background re-seal finish before the operator unseals again
+		if err := e.unsealUntilOpen(v, x); err != nil {
+			r.Inconc("%s: %v", caseID, err)
+			break
+		}
+		steps = append(steps, "fault cleared; unsealed again")
+		if !e.checkTracking(v, r, caseID, fmt.Sprintf("after a failed (read fault #%d) and a successful unseal of %s", k, x.Path), steps) {
+			break
+		}
+		r.Count("unseal_after_fault_checked", 1)
+		if ci%3 == 0 || kit.OnlyCase() != "" {
+			short := map[string]*c05Stored{}
+			for id, s := range e.shortLived(v, 6*time.Second) {
+				if s.NS == x {
+					short[id] = s
+				}
+			}
+			e.awaitGone(v, r, caseID, short)
+			v.WaitQuiet(30*time.Millisecond, 3*time.Second)
+			e.checkTracking(v, r, caseID, "after the short leases of the re-unsealed namespace expired", steps)
+		}
+		if r.NViolations() > 10 {
+			return
+		}
+	}
+
+	// ---- interleaving variant (no fault)
+	for ci := 0; ci < kit.N(3, 10); ci++ {
+		caseID := fmt.Sprintf("nsinterleave:%d:%d", shard, ci)
+		if !kit.WantCase(caseID) {
+			continue
+		}
+		r.Eval(1)
+		if err := e.unsealUntilOpen(v, x); err != nil {
+			r.Inconc("%s: %v", caseID, err)
+			break
+		}
+		if err := e.unsealUntilOpen(v, y); err != nil {
+			r.Inconc("%s: %v", caseID, err)
+			break
+		}
+		issue(x, "4s")
+		if err := e.sealNS(v, y); err != nil {
+			r.Inconc("%s: %v", caseID, err)
+			break
+		}
+		// renew X's leases continuously while Y is unsealed
+		stop := make(chan struct{})
+		var wg sync.WaitGroup
+		for g := 0; g < 4; g++ {
+			g := g
+			wg.Add(1)
+			go func() {
+				defer wg.Done()
+				for i := g; ; i++ {
+					select {
+					case <-stop:
+						return
+					default:
+					}
+					id := xLong[i%len(xLong)]
+					_, _ = v.Do(vReq{Op: logical.UpdateOperation, Path: "sys/leases/renew", Token: v.Root, NS: x.Path, Data: map[string]any{"lease_id": id, "increment": 3600}})
+				}
+			}()
+		}
+		time.Sleep(5 * time.Millisecond)
+		uerr := e.unsealNS(v, y)
+		c05WaitRestored(v, 20*time.Second)
+		close(stop)
+		wg.Wait()
+		if uerr != nil {
+			r.Inconc("%s: unseal of %s failed: %v", caseID, y.Path, uerr)
+			break
+		}
+		// non-vacuity only: did a request load an X lease while the manager was in restore mode?
+		hit := 0
+		if m := v.Core.expiration; m != nil {
+			m.restoreLoaded.Range(func(k, _ any) bool {
+				if id, ok := k.(string); ok && x.NS.MatchesID(id) {
+					hit++
+				}
+				return true
+			})
+		}
+		steps := []string{fmt.Sprintf("%s unsealed while 4 clients renew leases of %s (X leases loaded during the restore: %d)", y.Path, x.Path, hit)}
+		if hit > 0 {
+			r.Count("interleavings_with_lease_loaded_during_foreign_restore", 1)
+			r.Nontrivial(caseID)
+		}
+		v.WaitQuiet(30*time.Millisecond, 3*time.Second)
+		if err := e.sealNS(v, x); err != nil {
+			r.Inconc("%s: %v", caseID, err)
+			break
+		}
+		if err := e.unsealUntilOpen(v, x); err != nil {
+			r.Inconc("%s: %v", caseID, err)
+			break
+		}
+		steps = append(steps, fmt.Sprintf("%s sealed and unsealed", x.Path))
+		if !e.checkTracking(v, r, caseID, fmt.Sprintf("after seal+unseal of %s whose leases were renewed during the restore of %s", x.Path, y.Path), steps) {
+			break
+		}
+		r.Count("interleaving_checked", 1)
+		r.Sample(map[string]any{"case": caseID, "steps": steps})
+	}
+	short := map[string]*c05Stored{}
+	for id, s := range e.shortLived(v, 6*time.Second) {
+		if s.NS == x {
+			short[id] = s
+		}
+	}
+	e.awaitGone(v, r, "nsinterleave:end", short)
+	r.Require("unseal_failed_on_read_fault", 5)
+	r.Require("unseal_after_fault_checked", 8)
+	r.Require("interleaving_checked", 2)
+	r.Require("interleavings_with_lease_loaded_during_foreign_restore", 1)
+	r.Require("expired_leases_seen_revoked", 4)
+}
+
 // ------------------------------------------------------------------ crash prefixes
 
 type c05Flow struct {
